@@ -127,9 +127,10 @@ def u7(ctx, F, arms, fn, sym, rule="C12.U7"):
     def mentions_moves(t):
         return any(isinstance(x, tuple) and x == ("lit", "moves") for x in hir.subterms(t))
 
-    def word_test(t, word):
-        """the condition with every token variable it mentions standing for `word`"""
-        a = {x: ("lit", word) for x in hir.subterms(t) if isinstance(x, tuple) and x[:1] == ("var",)}
+    def word_test(t, word, outer=(), arm_word=None):
+        """the condition with every token variable it mentions standing for `word` (names bound outside the branch stand for the
+        branch's own keyword)"""
+        a = {x: ("lit", arm_word if (x[1] in outer and arm_word) else word) for x in hir.subterms(t) if isinstance(x, tuple) and x[:1] == ("var",)}
         for x in hir.subterms(t):
             if isinstance(x, tuple) and x[:1] == ("call",) and str(x[1]).endswith("::next"):
                 a[x] = ("ctor", "std::prelude::v1::Some", (("lit", word),))
@@ -153,8 +154,24 @@ def u7(ctx, F, arms, fn, sym, rule="C12.U7"):
                 v = sym(n["r"])
                 if v == ("lit", True):
                     conds = [a_ for a_ in anc if a_.get("k") == "If"]
+                    # a name the test reads that is bound outside this branch is the branch's own word (`startpos` / `fen`), not a token
+                    inner_ids = set()
+                    stack_ = [arm]
+                    while stack_:
+                        y_ = stack_.pop()
+                        if isinstance(y_, list):
+                            stack_.extend(y_)
+                        elif isinstance(y_, dict):
+                            if y_.get("k") == "PBind" and "id" in y_:
+                                inner_ids.add(y_["id"])
+                            stack_.extend(v_ for k_, v_ in y_.items() if isinstance(v_, (dict, list)) and k_ not in ("sp", "osp", "to"))
+
+                    def outer_names(cnode):
+                        return {p_["to"]["name"] for p_, _ in hir.walk(cnode) if p_.get("k") == "Path" and (p_.get("to") or {}).get("res") == "local"
+                                and p_["to"].get("id") not in inner_ids}
                     ok = ok or any(mentions_moves(sym(a_["cond"])) and any(x is n for x, _ in hir.walk(a_["then"])) and
-                                   word_test(sym(a_["cond"]), "moves") == ("lit", True) and word_test(sym(a_["cond"]), "8/8") == ("lit", False)
+                                   word_test(sym(a_["cond"]), "moves", outer_names(a_["cond"]), word) == ("lit", True) and
+                                   word_test(sym(a_["cond"]), "8/8", outer_names(a_["cond"]), word) == ("lit", False)
                                    for a_ in conds)
                 elif mentions_moves(v):
                     ok = word_test(v, "moves") == ("lit", True) and word_test(v, "x") == ("lit", False)      # flag = (next token == "moves")
@@ -602,9 +619,10 @@ def u4(ctx, F, D):
     if bv is not None:
         # decided on the values: sampled coordinate texts give exactly their two squares, undecodable texts give nothing
         ctx.check("C12.U4", "reader:decodes-file,rank,file,rank", not bv, fn=RD, file=r["file"],
-                  what="the reader must decode the four characters as file-'a', rank-'1', file-'a', rank-'1' in that order "
-                       "(evaluated on 64 coordinate texts, promotion suffixes and undecodable texts)",
-                  expected="`e2e4` -> start e2, end e4; `i2e4`, `e2e9`, `e2` -> no move", found=bv[:4])
+                  what="the reader must decode the four characters as file-'a', rank-'1', file-'a', rank-'1' in that order and read the "
+                       "kind of move off the board (evaluated on 64 coordinate texts, promotion suffixes, undecodable texts and five "
+                       "board situations: en passant / capture / push / piece move / empty origin)",
+                  expected="`e2e4` -> start e2, end e4; `i2e4`, `e2e9`, `e2` -> no move; pawn onto an empty diagonal -> en passant", found=bv[:4])
         return
     if not ok:
         # the byte may be read in one `let` and decoded in another (a helper taking the two bytes of a square): pair every decoding
@@ -729,6 +747,11 @@ def _reader_by_value(F, D):
         if not ms or any(str(m[1]) != MV + "Promotion" or dict(m[2]).get("new_piece") != ("variant", "chess::piece::PieceType::" + T)
                          or dict(m[2]).get("start") != ("pos", 6, 4) or dict(m[2]).get("end") != ("pos", 7, 4) for m in ms):
             bad.append(("e7e8" + L, hir.fmt(v, 120)))
+        # what a promotion captures is what stands on its destination
+        for m in ms:
+            cp = dict(m[2]).get("captured_piece")
+            if cp is not None and cp[:1] == ("call",) and str(cp[1]).endswith("Game::get_position") and cp[2][-1] != ("pos", 7, 4):
+                bad.append(("e7e8" + L, "captured piece read from %s" % hir.fmt(cp[2][-1], 40)))
     for text in ("e7e8x", "e7e8k", "e7e8p"):
         v = run(text)
         if undecided_text(v):
